@@ -1,5 +1,6 @@
 mod emitproj;
 mod gram;
+mod ptoks;
 mod project;
 mod render;
 mod run;
@@ -34,6 +35,7 @@ fn main() {
         "replay" => replay(&args),
         "mutate" => mutate(&args),
         "syntax" => syntax(&args),
+        "ptoks" => ptoks::run(&args),
         "buildtree" => {
             // pyxis::build on a prepared directory tree; prints the outcome and the full error chain
             let ind = arg(&args, "--in-dir").expect("--in-dir");
